@@ -85,6 +85,10 @@ def _expand(payload, sub):
                 k = rng.choice(cand)
                 del sp['fields'][k]
                 sp['fields']['m_' + k] = [k]
+    # a concatenation that does not carry the provenance id: rows whose mapped cells are all null are legal data too
+    for sp in sc['steps']:
+        if sp['step'] == 'concatenate' and sp is sc['steps'][-1] and len(sp['fields']) > 1 and rng.random() < payload.get('noid_p', 0.12):
+            sp['fields'].pop('_id', None)
     try:
         PL.describe(sc, {'calls': {}})
     except Exception:  # noqa
@@ -119,7 +123,7 @@ class C16(Prop):
     ASSUMPTIONS = ['the placement model (dfsim/props/c16.py:model) is the documented semantics: first-selected position for concatenate, right-after / end for duplicate, append for new sources',
                    'sqlite below KVFile is real and fault-free here']
     REAL_VS_STUB = {'real': ['dataflows concatenate / duplicate / delete_resource / iterable_loader / update_resource', 'kvfile + sqlite'], 'stub': ['KVFile twin only sets the cache-size knob and counts operations']}
-    PROBES = ['duplicate-spilled-to-disk', 'concatenate-with-rename', 'delete-after-duplicate', 'empty-resource', 'big-resource', 'duplicate-to-end', 'iterable-appended', 'concat-then-delete']
+    PROBES = ['duplicate-spilled-to-disk', 'concatenate-with-rename', 'delete-after-duplicate', 'empty-resource', 'big-resource', 'duplicate-to-end', 'iterable-appended', 'concat-then-delete', 'concatenate-without-id-field']
     TIERS = {'quick': dict(runs=800, wall=100, run_wall=120),
              'thorough': dict(runs=25000, wall=1700, run_wall=300)}
     SHRINK_FROZEN = ('fields_', 'gen_stats')
@@ -161,13 +165,18 @@ class C16(Prop):
                 ctx.probe('concatenate-with-rename')
             if sp['step'] == 'iterable':
                 ctx.probe('iterable-appended')
+            if sp['step'] == 'concatenate' and '_id' not in sp['fields']:
+                ctx.probe('concatenate-without-id-field')
         if 'duplicate' in kinds and 'delete_resource' in kinds[kinds.index('duplicate'):]:
             ctx.probe('delete-after-duplicate')
         if 'concatenate' in kinds and 'delete_resource' in kinds[kinds.index('concatenate'):]:
             ctx.probe('concat-then-delete')
         for kvsize, r in outs:
             if r['status'] != 'ok':
-                ctx.violation('raised', (r['exc'].get('cause') or r['exc'])['type'], 'restructuring pipeline raised %s (KVFile cache size %r); %s' % (json.dumps(r['exc'])[:400], kvsize, desc), kvsize=kvsize)
+                cause = r['exc'].get('cause') or r['exc']
+                allnull = cause['type'] == 'builtins.AssertionError' and 'Got an empty row after concatenation' in cause['str']
+                ctx.violation('raised', cause['type'] + (':empty-row-after-concatenation' if allnull else ''), 'restructuring pipeline raised %s (KVFile cache size %r); %s' % (
+                    json.dumps(r['exc'])[:400], kvsize, desc), kvsize=kvsize, empty_row_assertion=allnull)
             v = r['value']
             if v['kv_ops'] and kvsize < 100 and max(len(t['rows']) for t in sc['tables']) > kvsize:
                 ctx.probe('duplicate-spilled-to-disk')
